@@ -392,14 +392,26 @@ class World(object):
                 # the live composite is itself a member of a parent (a CompositeDataSource or an Environment, which wraps its source in one)
                 # that carries filters: the parent's answer is the filtered union, and afterwards the live composite is what it was
                 flt = h.get("filters") or []
+                own = h.get("own") or []            # filters attached to the live composite itself while it is a member of the parent
+                own_objs = S.mk_filters(own)
+                if own:
+                    live.filters.add(own_objs)
                 if h.get("via") == "env":
                     parent = self.stix2.Environment(source=live)
                     parent.add_filters(S.mk_filters(flt))
+                    psrc = parent.source
                 else:
                     parent = self.stix2.CompositeDataSource()
                     parent.add_data_source(live)
                     parent.filters.add(S.mk_filters(flt))
-                exp = [o for a in active for o in items[a]]
+                    psrc = parent
+                sib_objs = []
+                if h.get("sibling"):
+                    # a sibling of the live composite, attached AFTER it: the live composite's own filters are none of its business
+                    sib_objs = [self.case["pop"][(h.get("x", 0) + j) % len(self.case["pop"])] for j in range(1, 4)]
+                    sib = self.stix2.MemorySource(stix_data=[copy.deepcopy(o) for o in sib_objs], allow_custom=True)
+                    psrc.add_data_source(sib)
+                exp = [o for a in active for o in items[a] if M.matches(own, o)] + sib_objs
                 um = M.ListModel()
                 for o in exp:
                     if M.matches(flt, o):
@@ -414,6 +426,8 @@ class World(object):
                     if not bad and not S.compare_answer("parent (%s) of the live composite with attached filters %s: all_versions(%s)" % (h.get("via"), core.short(flt, 200), sid),
                                                         got, [o for o in um.objs if o["id"] == sid], self.fails, "history:parent-filter:all-versions"):
                         return
+                if own:
+                    live.filters.remove(own_objs)
             else:
                 raise core.HarnessError("unknown history step %r" % m)
             if bad:
@@ -648,7 +662,8 @@ def configuration(draw):
         st.fixed_dictionaries({"m": st.sampled_from(["detach", "detach", "attach", "attach", "late-add", "late-add", "attach-twice"]),
                                "k": st.integers(0, nm - 1), "x": st.integers(0, max(0, len(pop) - 1))}),
         st.fixed_dictionaries({"m": st.just("parent-filter"), "via": st.sampled_from(["composite", "env"]), "x": st.integers(0, 40),
-                               "filters": G.filter_set(pop, 1, 2, no_ts=True)}))
+                               "filters": G.filter_set(pop, 1, 2, no_ts=True), "own": st.one_of(st.just([]), G.filter_set(pop, 1, 1, no_ts=True)),
+                               "sibling": st.booleans()}))
     history = draw(st.one_of(st.just([]), st.lists(hist_step, min_size=2, max_size=7)))
     return {"pop": pop, "members": members, "place": place, "order": list(order), "nest": nest, "plain": draw(st.sampled_from(["memory", "fs"])), "probes": probes,
             "history": history}
